@@ -236,3 +236,25 @@ def ram_gone_cpus_left_scenario(seed):
     arrivals[0] = list(range(9))
     arrivals[1] = [9 + k for k in range(late)]
     return {"layer": "S", "algo": "priority", "cfg": cfg, "pipes": pipes, "steps": [], "arrivals": arrivals}
+
+
+def overbook_parallel_roots_fail_scenario(seed):
+    """overbook: a pipeline with two or three parallel roots (and a join) each of which needs more memory than the pool has, next to pipelines that are fine:
+    every attempt of a root ends in an OOM kill, the failures are spread over several operators of the same pipeline, and after the third failed container the
+    pipeline must not be assigned again -- whichever of its operators would be next"""
+    rng = random.Random(seed)
+    tps = rng.choice([1, 2, 4])
+    ram = rng.choice([16, 32])
+    cfg = {"tps": tps, "multi": rng.random() < 0.5, "over": True, "npools": rng.choice([1, 2]), "cpus": rng.choice([4, 8]), "ram": fstr(ram)}
+    width = rng.choice([2, 3])
+    ops = [gen_e.simple_op(tps, rng.randint(1, 3), fixed=ram + rng.choice([1, 8])) for _ in range(width)]
+    ops.append(gen_e.simple_op(tps, 1, fixed=F(1, 64), parents=list(range(width))))
+    pipes = [{"prio": rng.choice([1, 2, 3]), "ops": ops}]
+    for _ in range(rng.randint(1, 3)):
+        pipes.append({"prio": rng.choice([1, 2, 3]), "ops": [gen_e.simple_op(tps, rng.randint(1, 4), fixed=F(1, 64), parents=[i - 1] if i else []) for i in range(rng.randint(1, 3))]})
+    nticks = 40
+    arrivals = [[] for _ in range(nticks)]
+    arrivals[0] = [0]
+    for k in range(1, len(pipes)):
+        arrivals[rng.randint(0, 6)].append(k)
+    return {"layer": "S", "algo": "overbook", "cfg": cfg, "pipes": pipes, "steps": [], "arrivals": arrivals}
